@@ -247,13 +247,10 @@ def snap(v, memo=None):
 # ----------------------------------------------------------------------------- exploration
 
 def read_state(R):
-    pp = R.pp
-    pending = frozenset(k for k in pp._DEFERRED_DISPATCH_BY_NAME)
-    promoted = frozenset(k.__module__ + '.' + k.__qualname__ for k in R.registry if k not in R.base_registry)
-    try:
-        cached = frozenset(k.__module__ + '.' + k.__qualname__ for k in pp._cnamedtuple_fieldnames_by_class.keys())
-    except Exception:     # noqa
-        cached = frozenset()
+    pending = frozenset(R.deferred())
+    promoted = frozenset(getattr(k, '__module__', '?') + '.' + getattr(k, '__qualname__', repr(k)) for k in R.registry if k not in R.base_registry)
+    names = R.structseq_cache_names()
+    cached = frozenset(names) if names is not None else frozenset()
     return (pending, promoted, cached)
 
 
